@@ -267,6 +267,12 @@ func (ms *Modules) FindModuleByNamespace(ns string) (*Module, error) {
 		if m.Namespace.Name == ns {
 			switch {
 			case m == found:
+			case found != nil && found.Name == m.Name:
+				// Two revisions of one module share its namespace:
+				// the namespace denotes what the bare name denotes.
+				if l := ms.Modules[m.Name]; l != nil {
+					found = l
+				}
 			case found != nil:
 				// Name the two in a fixed order, not in the order
 				// of map iteration.
